@@ -5,6 +5,8 @@ package srv
 import (
 	"fmt"
 	"net"
+	"os"
+	"path/filepath"
 	"strings"
 	"sync"
 
@@ -175,6 +177,9 @@ type OCase struct {
 	Has6 bool     `json:"has6"`
 	L4   []OEntry `json:"l4,omitempty"`
 	L6   []OEntry `json:"l6,omitempty"`
+	// ViaYAML: the configuration is written as a YAML file and read with config.Load, as main() does,
+	// instead of being built as a config.Config value
+	ViaYAML bool `json:"viayaml,omitempty"`
 }
 
 // GenO draws a configuration
@@ -184,7 +189,7 @@ func GenO(t *rapid.T) OCase {
 	c.Has4, c.Has6 = w != 1, w != 0
 	entry := func() OEntry {
 		e := OEntry{Name: rapid.SampledFrom(append(append([]string{}, synNames...), synNames[0], synNames[1])).Draw(t, "name")}
-		if rapid.IntRange(0, 24).Draw(t, "unknown") == 0 {
+		if gen.Chance(t, "unknown", 1, 20) {
 			e.Name = rapid.SampledFrom([]string{"nosuchplugin", "Syn_both_0", "syn_both_00", ""}).Draw(t, "unknown-name")
 		}
 		k := rapid.IntRange(0, 19).Draw(t, "beh")
@@ -219,7 +224,35 @@ func GenO(t *rapid.T) OCase {
 			c.L6 = append(c.L6, entry())
 		}
 	}
+	c.ViaYAML = rapid.IntRange(0, 2).Draw(t, "via-yaml") == 0
+	if c.ViaYAML {
+		// key case is folded by the YAML loader and an empty key is not a plugin name: keep to plain unknown names
+		for _, l := range [][]OEntry{c.L4, c.L6} {
+			for i := range l {
+				if l[i].Name == "Syn_both_0" || l[i].Name == "" {
+					l[i].Name = "nosuchplugin"
+				}
+			}
+		}
+	}
 	return c
+}
+
+func renderO(c *OCase) string {
+	var sb strings.Builder
+	sec := func(name string, l []OEntry, proto int) {
+		sb.WriteString(name + ":\n  listen: '" + map[int]string{4: "127.0.0.1:6767", 6: "[::1]:5470"}[proto] + "'\n  plugins:\n")
+		for i, e := range l {
+			sb.WriteString(fmt.Sprintf("    - %s: %s %d.%d\n", e.Name, e.Beh, proto, i))
+		}
+	}
+	if c.Has6 {
+		sec("server6", c.L6, 6)
+	}
+	if c.Has4 {
+		sec("server4", c.L4, 4)
+	}
+	return sb.String()
 }
 
 // expectLoad interprets the statement: which handlers exist, or must loading fail
@@ -298,6 +331,25 @@ func ExecO(c OCase) (res core.Result) {
 	if !c.Has4 && !c.Has6 {
 		fail = "no-section"
 	}
+	if c.ViaYAML {
+		emptySection := (c.Has4 && len(c.L4) == 0) || (c.Has6 && len(c.L6) == 0) || (!c.Has4 && !c.Has6)
+		if emptySection && fail == "" {
+			fail = "empty-plugins-section" // rejected by the loader of the file (C18)
+		}
+		path := filepath.Join(scratch(), fmt.Sprintf("c13-%d.yml", fileSeq.Add(1)))
+		os.WriteFile(path, []byte(renderO(&c)), 0o644)
+		loaded, lerr := config.Load(path)
+		os.Remove(path)
+		if lerr != nil {
+			res.Classes = []string{"load-fails:" + fail, "via-yaml"}
+			res.NonTrivial = true
+			if !emptySection {
+				res.Viol = core.Violate("C13/yaml-config-rejected", "config.Load rejected a configuration of synthetic plugins: %v\n%s", lerr, renderO(&c))
+			}
+			return
+		}
+		conf = loaded
+	}
 	h4, h6, err := plugins.LoadPlugins(conf)
 	if fail != "" {
 		res.Classes = []string{"load-fails:" + fail}
@@ -316,6 +368,9 @@ func ExecO(c OCase) (res core.Result) {
 		return
 	}
 	res.Classes = []string{"loaded"}
+	if c.ViaYAML {
+		res.Classes = append(res.Classes, "via-yaml")
+	}
 	interesting := false
 	// ---- DHCPv4 dispatch
 	if c.Has4 {
